@@ -216,8 +216,9 @@ def genPe (table : Bytes) (va size : Nat) (length : Int) (first last : Bytes) (p
 def genPeSigner (sig : Bytes) : authenticode.Ext :=
   { SignAuthenticode := fun _ _ r _ => (r, sig, none),
     ParseAuthenticode := fun _ => (⟨⟨⟨⟩, [], [], [], ⟨⟩⟩, ⟨⟩, []⟩, some "unused"),
-    Authenticode_Verify := fun _ _ r => (r, false, some "unused"),
-    makeSectionReader := fun _ => ⟨[]⟩ }
+    Authenticode_verifyDigest := fun _ _ _ _ s => (s, false, some "unused"),
+    makeSectionReader := fun _ => ⟨[]⟩,
+    crypto_Hash_Sum := fun _ _ => [] }
 
 /-- `gen.pe.append`: the TRANSLATED `Sign` (with a `SignAuthenticode` that returns `sig`) and the translated
     `AppendSignature sig` on a receiver built from what the harness observed of the real object BEFORE the step — table,
@@ -239,10 +240,14 @@ def genPeSignatures (table : String) : String :=
   let r := (genPe t 0 0 0 [] [] 0).Signatures (t.length + 1)
   if r.2.isNone then "ok [" ++ ",".intercalate (r.1.map genWinCertStr) ++ "]" else "err"
 
-/-- `gen.pe.verify`: the translated `Verify` loop on `table`, with externals that answer for the k-th entry body what
-    the harness observed of the real `ParseAuthenticode` / `(*Authenticode).Verify` on that body (`verdicts`, one letter
-    per listed entry: `P` does not parse, `E` verification error, `T` / `F` verified true / false).  The entry is found
-    by its body; an `Authenticode` value carries the index in `Digest`. -/
+/-- `gen.pe.verify`: the translated `Verify` loop (with the translated closure `imageDigest` and its memo map) on
+    `table`, with externals that answer for the k-th entry body what the harness observed of the real
+    `ParseAuthenticode` / `(*Authenticode).Verify` on that body (`verdicts`, one letter per listed entry: `P` does not
+    parse, `E` verification error, `T` / `F` verified true / false).  The entry is found by its body; an `Authenticode`
+    value carries the index in `Digest`.  `verifyDigest` asks the closure it is handed for the digest under
+    `crypto.SHA256` (5) and answers the observed verdict only if the closure answers the digest of the image without an
+    error — for the first entry computed, for every later one out of the map — and hands back the map the closure left;
+    the digest external marks its input (`alg :: bytes`), the hash input is one marker byte. -/
 def genPeVerify (table verdicts : String) : String :=
   let t := unhex table
   let p := genPe t 0 0 0 [] [] 0
@@ -255,13 +260,16 @@ def genPeVerify (table verdicts : String) : String :=
         let k := idxOf b
         (⟨⟨⟨⟩, [], [], [], ⟨⟩⟩, ⟨⟩, [UInt8.ofNat (k % 256), UInt8.ofNat (k / 256)]⟩,
          if vs.getD k 'P' == 'P' then some "parse" else none),
-      Authenticode_Verify := fun a _ r =>
+      Authenticode_verifyDigest := fun a _ _ step s =>
+        let r := step s 5
         let k := (a.Digest.getD 0 0).toNat + 256 * (a.Digest.getD 1 0).toNat
-        match vs.getD k 'E' with
-        | 'T' => (r, true, none)
-        | 'F' => (r, false, none)
-        | _ => (r, false, some "verify"),
-      makeSectionReader := fun _ => ⟨[]⟩ }
+        if r.2.2.isSome || r.2.1 != [5, 0xaa] then (r.1, false, some "the closure did not answer the image digest")
+        else match vs.getD k 'E' with
+        | 'T' => (r.1, true, none)
+        | 'F' => (r.1, false, none)
+        | _ => (r.1, false, some "verify"),
+      makeSectionReader := fun _ => ⟨[0xaa]⟩,
+      crypto_Hash_Sum := fun alg bs => alg.toUInt8 :: bs }
   let r := authenticode.PECOFFBinary.Verify (t.length + 1) X p ⟨[], [], [], 0⟩
   match r.2 with
   | none => s!"ok {r.1}"
